@@ -118,6 +118,8 @@ fn exec_op(
             keep,
         } => {
             let (slot, m, x, y) = (*slot, *m, *x, *y);
+            // a method without parameters has no arguments to vary
+            let (x, y) = if m == M::Z0 { (0, 0) } else { (x, y) };
             let mock = mock_of(run, slot);
             let start = begin_op(run, tid, idx, *fault, mock);
             let first_call = run.log(|l| l.calls.len() as u32);
@@ -157,6 +159,8 @@ fn exec_op(
                                     PortResp::Val(ByVal::v_prov(cell.take().unwrap(), x))
                                 }
                                 PortReq::Call(M::Vu, x, _) => PortResp::Val(ByValU::vu(cell.take().unwrap(), x)),
+                                PortReq::Call(M::V2Req, x, _) => PortResp::Val(ByVal2::v2_req(cell.take().unwrap(), x)),
+                                PortReq::Call(M::V2Prov, x, _) => PortResp::Val(ByVal2::v2_prov(cell.take().unwrap(), x)),
                                 PortReq::Call(m, ..) => panic!("bad by-value call {m:?}"),
                             })
                         }));
@@ -176,6 +180,8 @@ fn exec_op(
                                     PortResp::Val(ByRc::rc_prov(cell.take().unwrap(), x))
                                 }
                                 PortReq::Call(M::RcU, x, _) => PortResp::Val(ByRcU::rcu(cell.take().unwrap(), x)),
+                                PortReq::Call(M::Rc2Req, x, _) => PortResp::Val(ByRc2::rc2_req(cell.take().unwrap(), x)),
+                                PortReq::Call(M::Rc2Prov, x, _) => PortResp::Val(ByRc2::rc2_prov(cell.take().unwrap(), x)),
                                 PortReq::Call(m, ..) => panic!("bad Rc call {m:?}"),
                             })
                         }));
@@ -204,6 +210,8 @@ fn exec_op(
                                 PortReq::Call(M::ArcProv, x, _) => {
                                     PortResp::Val(ByArc::arc_prov(cell.take().unwrap(), x))
                                 }
+                                PortReq::Call(M::Arc2Req, x, _) => PortResp::Val(ByArc2::arc2_req(cell.take().unwrap(), x)),
+                                PortReq::Call(M::Arc2Prov, x, _) => PortResp::Val(ByArc2::arc2_prov(cell.take().unwrap(), x)),
                                 PortReq::Call(m, ..) => panic!("bad Arc call {m:?}"),
                             })
                         }));
@@ -453,6 +461,10 @@ fn thread_body(run: &Arc<RunCtx>, tid: u8, ops: &[Op], prelude: usize) -> Result
 
 pub fn run(scn: &Scenario) -> RunResult {
     crate::sched::install_hook();
+    let zst0 = (
+        crate::values::ZST_CREATED.load(Ordering::SeqCst),
+        crate::values::ZST_DROPPED.load(Ordering::SeqCst),
+    );
     let n = scn.threads.len().max(1);
     let mut cfgs = vec![scn.config.clone()];
     if let Some(c2) = &scn.config2 {
@@ -555,6 +567,10 @@ pub fn run(scn: &Scenario) -> RunResult {
     }
     let mut log = run.log(|l| std::mem::take(l));
     log.track = run.tracker.take();
+    log.zst = (
+        crate::values::ZST_CREATED.load(Ordering::SeqCst) - zst0.0,
+        crate::values::ZST_DROPPED.load(Ordering::SeqCst) - zst0.1,
+    );
     let be = build_error.lock().unwrap().clone();
     RunResult {
         log,
